@@ -101,7 +101,12 @@ def check_file(nixfile):
     :rtype: Dictionary
     """
     results = {"errors": dict(), "warnings": dict()}
-    if not nixfile.created_at:
+    try:
+        file_created_at = nixfile.created_at
+    except KeyError:
+        # the created_at attribute of the file is missing: report it
+        file_created_at = None
+    if file_created_at is None:
         results["errors"][nixfile] = [ValidationError.NoDate]
 
     file_warnings = list()
